@@ -10,12 +10,12 @@ theorem nodup_filter {α : Type} {l : List α} (p : α → Bool) (h : l.Nodup) :
   List.Sublist.nodup List.filter_sublist h
 
 /-- whichever index the shape selects, the candidates are the stored triples matching the pattern -/
-theorem mem_cands {m : Mem} (hI : Inv0 m) (pat : Pat) (t : Triple) :
-    t ∈ cands m pat ↔ (t ∈ m.spo ∧ pat.matches t = true) := by
+theorem mem_cands_gen {m : Mem} (hp : ∀ t, t ∈ m.pos ↔ t ∈ m.spo) (ho : ∀ t, t ∈ m.osp ↔ t ∈ m.spo)
+    (pat : Pat) (t : Triple) : t ∈ cands m pat ↔ (t ∈ m.spo ∧ pat.matches t = true) := by
   obtain ⟨ps, pp, po⟩ := pat
   obtain ⟨s, p, o⟩ := t
   cases ps <;> cases pp <;> cases po <;>
-    simp only [cands, List.mem_filter, hI.pos_iff, hI.osp_iff, Pat.matches, matchPos, Bool.and_eq_true,
+    simp only [cands, List.mem_filter, hp, ho, Pat.matches, matchPos, Bool.and_eq_true,
       beq_iff_eq, Bool.true_and, Bool.and_true, and_true]
   case some.some.some s' p' o' =>
     by_cases h : (s', p', o') ∈ m.spo
@@ -26,16 +26,23 @@ theorem mem_cands {m : Mem} (hI : Inv0 m) (pat : Pat) (t : Triple) :
     · simp only [h, if_false, List.not_mem_nil, false_iff, not_and]
       rintro h1 ⟨rfl, rfl⟩ rfl; exact h h1
 
-theorem nodup_cands {m : Mem} (hI : Inv0 m) (pat : Pat) : (cands m pat).Nodup := by
+theorem mem_cands {m : Mem} (hI : Inv0 m) (pat : Pat) (t : Triple) :
+    t ∈ cands m pat ↔ (t ∈ m.spo ∧ pat.matches t = true) := mem_cands_gen hI.pos_iff hI.osp_iff pat t
+
+theorem nodup_cands_gen {m : Mem} (h1 : m.spo.Nodup) (h2 : m.pos.Nodup) (h3 : m.osp.Nodup) (pat : Pat) :
+    (cands m pat).Nodup := by
   obtain ⟨ps, pp, po⟩ := pat
   cases ps <;> cases pp <;> cases po <;> simp only [cands]
   case some.some.some s' p' o' => split <;> simp
   all_goals
     first
-    | exact hI.nd_spo
-    | exact nodup_filter _ hI.nd_spo
-    | exact nodup_filter _ hI.nd_pos
-    | exact nodup_filter _ hI.nd_osp
+    | exact h1
+    | exact nodup_filter _ h1
+    | exact nodup_filter _ h2
+    | exact nodup_filter _ h3
+
+theorem nodup_cands {m : Mem} (hI : Inv0 m) (pat : Pat) : (cands m pat).Nodup :=
+  nodup_cands_gen hI.nd_spo hI.nd_pos hI.nd_osp pat
 
 theorem hasCtxRaises_false {m : Mem} (hI : Inv0 m) (t : Triple) : hasCtxRaises m t = false := by
   unfold hasCtxRaises
